@@ -1,6 +1,7 @@
 package keeper
 
 import (
+	ordertypes "github.com/SaoNetwork/sao/x/order/types"
 	sdk "github.com/cosmos/cosmos-sdk/types"
 )
 
@@ -31,6 +32,21 @@ func (k Keeper) HandleExpiredShard(ctx sdk.Context, shardId uint64) {
 
 		newOrder, _ := k.order.GetOrder(ctx, shard.OrderId)
 		k.market.WorkerAppend(ctx, &newOrder, &shard)
+	}
+
+	// a migration of the shard that has just been released can never complete any more: drop
+	// its target shard with it, otherwise the order would list it for ever
+	if _, still := k.order.GetShard(ctx, shardId); !still {
+		kept := make([]uint64, 0, len(order.Shards))
+		for _, id := range order.Shards {
+			target, found := k.order.GetShard(ctx, id)
+			if found && target.Status == ordertypes.ShardMigrating && target.From == shard.Sp {
+				k.order.RemoveShard(ctx, id)
+				continue
+			}
+			kept = append(kept, id)
+		}
+		order.Shards = kept
 	}
 
 	if len(order.Shards) == 1 {
